@@ -8,7 +8,7 @@
     (TraverseSchema) and the construction of DFAContentModel from the converted tree (including the counting states
     used for the compact Loop form, whose intended semantics is the clause for [CLoop] in [Lc]) are tied to the code
     by the correspondence run only. *)
-From XV Require Import C08.Spec08 C08.Model08 C08.ModelDfa08 C08.Proofs08a C08.Proofs08b C08.Proofs08c C08.Proofs08d C08.Proofs08e C08.Proofs08f C08.Proofs08g C08.Proofs08h C08.Proofs08i.
+From XV Require Import C08.Spec08 C08.Model08 C08.ModelDfa08 C08.Proofs08a C08.Proofs08b C08.Proofs08c C08.Proofs08d C08.Proofs08e C08.Proofs08f C08.Proofs08g C08.Proofs08h C08.Proofs08i C08.SpecElem08 C08.ModelElem08 C08.Proofs08j.
 
 Notation u1 := 1%N. Notation u2 := 2%N. Notation u3 := 3%N. Notation u4 := 4%N.
 
@@ -337,3 +337,91 @@ Theorem T08_wc_subset_absent_refuted :
   wildcard_allows (NsSet [u1]) u1 = true /\ wildcard_allows (NsNot u2) u1 = false.
 Proof. repeat split; reflexivity. Qed.
 Print Assumptions T08_wc_subset_absent_refuted.
+
+(** * One element against its declaration: xsi:nil, value constraints, content type (3.3.4 clauses 3 and 5, 3.4.4 clause 2) *)
+(** SchemaValidator::validateElement (NillNotAllowed) + sendCharData (NoCharDataInCM, fDatatypeBuffer) +
+    SchemaValidator::checkContent report no error exactly when the item is valid per [elem_valid], and the characters
+    reported for a valid item are its [schema normalized value], for every datatype (dtv, dteq), every well-formed
+    declaration and every item outside the three refuted classes below.  PARTIAL in that sense only. *)
+Theorem T08_elem_content : forall dtv dteq d x,
+  edecl_wf dtv d = true -> elem_defect_class d x = false ->
+  m_elem_valid dtv dteq d x = elem_valid dtv dteq d x /\
+  (m_elem_valid dtv dteq d x = true -> m_elem_value dtv dteq d x = elem_value d x).
+Proof. exact elem_check_correct. Qed.
+Print Assumptions T08_elem_content.
+
+Definition ex_dtv (t : list N) : bool := true.
+Definition ex_item na nk cm tx := {| i_nil := na; i_nkids := nk; i_cm_ok := cm; i_text := tx |}.
+Definition ex_decl k nl v := {| e_kind := k; e_nillable := nl; e_vc := v |}.
+Example T08_elem_content_nonvacuous :
+  let F := VFixed [97; 98]%N in
+  edecl_wf ex_dtv (ex_decl KSimple true F) = true /\
+  elem_defect_class (ex_decl KSimple true F) (ex_item NilTrue 0 true []) = false /\
+  m_elem_valid ex_dtv str_eqb (ex_decl KSimple true F) (ex_item NilTrue 0 true []) = false /\      (* 3.2.2 *)
+  m_elem_valid ex_dtv str_eqb (ex_decl KSimple true F) (ex_item NilAbsent 0 true [97; 98]%N) = true /\
+  m_elem_valid ex_dtv str_eqb (ex_decl KSimple true F) (ex_item NilAbsent 0 true [97]%N) = false /\ (* 5.2.2.2.2 *)
+  m_elem_value ex_dtv str_eqb (ex_decl KSimple true F) (ex_item NilFalse 0 true []) = [97; 98]%N /\  (* 5.1 *)
+  m_elem_valid ex_dtv str_eqb (ex_decl KSimple false VNone) (ex_item NilFalse 0 true []) = false /\ (* 3.1 *)
+  m_elem_valid ex_dtv str_eqb (ex_decl KElemOnly true VNone) (ex_item NilTrue 1 true []) = false /\  (* 3.2.1 *)
+  m_elem_valid ex_dtv str_eqb (ex_decl KElemOnly true VNone) (ex_item NilTrue 0 false []) = true /\  (* content not checked *)
+  m_elem_valid ex_dtv str_eqb (ex_decl KElemOnly true VNone) (ex_item NilAbsent 1 true [32; 120]%N) = false /\ (* 2.3 *)
+  m_elem_valid ex_dtv str_eqb (ex_decl KEmpty true VNone) (ex_item NilAbsent 0 true [32]%N) = false /\ (* 2.1 *)
+  m_elem_valid ex_dtv str_eqb (ex_decl KMixed true VNone) (ex_item NilAbsent 1 true [120]%N) = true.
+Proof. cbv zeta. repeat split; vm_compute; reflexivity. Qed.
+
+(** known finding C08-nildefault: xsi:nil="true" on a nillable element declared with a default (not fixed) value is
+    rejected with NilAttrNotEmpty; 3.3.4 clause 3.2.2 only excludes a *fixed* value constraint *)
+Theorem T08_elem_nildefault_refuted : exists d x,
+  edecl_wf ex_dtv d = true /\ elem_valid ex_dtv str_eqb d x = true /\ m_elem_valid ex_dtv str_eqb d x = false.
+Proof. exists (ex_decl KSimple true (VDefault [97]%N)), (ex_item NilTrue 0 true []). repeat split; vm_compute; reflexivity. Qed.
+Print Assumptions T08_elem_nildefault_refuted.
+(** known finding C08-mixedvc: the value constraint of an element with mixed content is ignored: a fixed value is
+    not compared (5.2.2.2.1), element children are accepted (5.2.2.1), xsi:nil is accepted (3.2.2), a default is not
+    reported for empty content (5.1) *)
+Theorem T08_elem_mixedvc_refuted :
+  let d := ex_decl KMixed true (VFixed [97]%N) in
+  edecl_wf ex_dtv d = true /\
+  (elem_valid ex_dtv str_eqb d (ex_item NilAbsent 0 true [98]%N) = false /\ m_elem_valid ex_dtv str_eqb d (ex_item NilAbsent 0 true [98]%N) = true) /\
+  (elem_valid ex_dtv str_eqb d (ex_item NilAbsent 1 true []) = false /\ m_elem_valid ex_dtv str_eqb d (ex_item NilAbsent 1 true []) = true) /\
+  (elem_valid ex_dtv str_eqb d (ex_item NilTrue 0 true []) = false /\ m_elem_valid ex_dtv str_eqb d (ex_item NilTrue 0 true []) = true) /\
+  (elem_value d (ex_item NilAbsent 0 true []) = [97]%N /\ m_elem_value ex_dtv str_eqb d (ex_item NilAbsent 0 true []) = []).
+Proof. cbv zeta. repeat split; vm_compute; reflexivity. Qed.
+Print Assumptions T08_elem_mixedvc_refuted.
+(** known finding C08-nilwhitespace: a nilled element with element-only content and white space characters is accepted
+    (3.2.1: no character or element information item children) *)
+Theorem T08_elem_nilws_refuted : exists d x,
+  edecl_wf ex_dtv d = true /\ elem_valid ex_dtv str_eqb d x = false /\ m_elem_valid ex_dtv str_eqb d x = true.
+Proof. exists (ex_decl KElemOnly true VNone), (ex_item NilTrue 0 true [32]%N). repeat split; vm_compute; reflexivity. Qed.
+Print Assumptions T08_elem_nilws_refuted.
+
+(** * {process contents}: scanStartTagNS / laxElementValidation over an element tree *)
+(** the scanner reports no error in the tree exactly when the root is not invalid per 3.3.5 [validity] with the
+    skip / lax / strict rules of 3.10.1 -- for every tree (FULL on the modelled inputs: availability of a declaration and
+    local validity of each element are inputs) *)
+Theorem T08_process_contents : forall t, m_tree_valid t = tree_valid t.
+Proof. exact walk_correct. Qed.
+Print Assumptions T08_process_contents.
+Theorem T08_process_contents_off : forall t, m_walk false t = 0.
+Proof. exact m_walk_off. Qed.
+Example T08_process_contents_nonvacuous :
+  let bad := ENode (ByWild PcStrict) true false [] in
+  let und h := ENode h false true [bad] in
+  m_tree_valid (ENode ByDecl true true [und (ByWild PcLax)]) = true /\
+  m_tree_valid (ENode ByDecl true true [und (ByWild PcSkip)]) = true /\
+  m_tree_valid (ENode ByDecl true true [und (ByWild PcStrict)]) = false /\
+  m_tree_valid (ENode ByDecl true true [ENode (ByWild PcLax) true true [bad]]) = false /\
+  m_tree_valid (ENode ByDecl true true [ENode (ByWild PcSkip) true false [bad]]) = true /\
+  m_walk true (ENode ByDecl true true [und (ByWild PcStrict); bad]) = 3.
+Proof. cbv zeta. repeat split; vm_compute; reflexivity. Qed.
+
+(** * UPA check: the overlap test on two element-map entries *)
+(** XercesElementWildcard::conflict (elements without substitution groups, Any / Any_Other / Any_NS wildcards) answers
+    true exactly when some element name can be attributed to both leaves (sound and complete, all namespaces) *)
+Theorem T08_upa_conflict : forall a b, m_conflict a b = true <-> leaves_overlap (spec_leaf a) (spec_leaf b).
+Proof. exact conflict_correct. Qed.
+Print Assumptions T08_upa_conflict.
+Example T08_upa_conflict_nonvacuous :
+  m_conflict (LA KOther u2) (LA KOther u3) = true /\ m_conflict (LA KNS u2) (LA KOther u2) = false /\
+  m_conflict (LA KNS u1) (LA KOther u2) = false /\ m_conflict (LQ (u3, 6%N)) (LA KOther u2) = true /\
+  m_conflict (LQ (u2, 1%N)) (LQ (u2, 2%N)) = false /\ m_conflict (LA KNS u3) (LA KNS u3) = true.
+Proof. repeat split; vm_compute; reflexivity. Qed.
